@@ -616,6 +616,71 @@ fn hostile_source(rec: &mut Rec, ctx: &Ctx, idx: u64, rng: &mut ChaCha20Rng) {
   }
 }
 
+/// secrets of several field elements: every element has its OWN polynomial - no non-constant
+/// coefficient occurs twice, and a single share does not give away the difference of two elements
+fn multi_element(rec: &mut Rec, ctx: &Ctx, idx: u64, rng: &mut ChaCha20Rng) {
+  use crate::prop::c06::RecRng;
+  let t: u32 = rng.gen_range(2..=5);
+  let k = rng.gen_range(2..=4usize);
+  let mut secret = vec![0u8; 24 * k];
+  for j in 0..k {
+    rng.fill(&mut secret[24 * j..24 * j + 16]);
+  }
+  let mut r = RecRng::new(case_rng(ctx, "multi-element-stream", idx));
+  rec.evals += 1;
+  rec.ev("multi_element_sharings");
+  rec.case(&("multi-element", t, k));
+  let ev = match star_sharks::Sharks(t).dealer_rng(&secret, &mut r) {
+    Ok(e) => e,
+    Err(_) => return,
+  };
+  let shares: Vec<star_sharks::Share> = ev.take(t as usize).collect();
+  let of = |f: &star_sharks::Fp| -> BigUint {
+    use ff::PrimeField;
+    bf::from_le(f.to_repr().as_ref())
+  };
+  if shares.iter().any(|s| s.y.len() != k) {
+    return;
+  }
+  let mut seen: HashMap<Vec<u8>, usize> = HashMap::new();
+  for j in 0..k {
+    let pts: Vec<(BigUint, BigUint)> = shares.iter().map(|s| (of(&s.x), of(&s.y[j]))).collect();
+    let co = match bf::interpolate_coeffs(&pts) {
+      Some(c) => c,
+      None => return,
+    };
+    for c in co.iter().skip(1) {
+      rec.ev("coefficient_checked");
+      if let Some(other) = seen.insert(c.to_bytes_le(), j) {
+        if other != j {
+          rec.violation(
+            "coefficient-shared-across-elements",
+            format!("the polynomials of elements {} and {} of one secret share a non-constant coefficient: one share reveals the difference of the two elements", other, j),
+            json!({"t": t, "elements": k, "secret": hex(&secret), "first_share_x": of(&shares[0].x).to_string()}),
+          );
+          return;
+        }
+      }
+    }
+  }
+  // the attack itself, on ONE share (t >= 2): y_i - y_j against s_i - s_j
+  let s0 = &shares[0];
+  for i in 0..k {
+    for j in i + 1..k {
+      let (si, sj) = (bf::from_le(&secret[24 * i..24 * i + 24]), bf::from_le(&secret[24 * j..24 * j + 24]));
+      rec.ev("single_share_difference_attacks");
+      if bf::sub(&of(&s0.y[i]), &of(&s0.y[j])) == bf::sub(&si, &sj) {
+        rec.violation(
+          "single-share-reveals-difference",
+          format!("y_{} - y_{} of a single share equals the difference of the secret's elements {} and {} (threshold {})", i, j, i, j, t),
+          json!({"t": t, "elements": k, "secret": hex(&secret)}),
+        );
+        return;
+      }
+    }
+  }
+}
+
 /// thresholds beyond every 8-bit boundary: t-1 (and 255, 256) honest distinct
 /// shares must not recover, and must not interpolate to the sharing key
 fn large_threshold(rec: &mut Rec, ctx: &Ctx, idx: u64, rng: &mut ChaCha20Rng) {
@@ -673,6 +738,7 @@ pub fn run(ctx: &Ctx) -> Rec {
   rec.merge(par_run(ctx, "shape", ctx.n(2400, 100_000), |rec, i, rng| shape(rec, ctx, i, rng, &global)));
   rec.merge(par_run(ctx, "large-threshold", ctx.n(6, 55), |rec, i, rng| large_threshold(rec, ctx, i, rng)));
   rec.merge(par_run(ctx, "hostile-source", ctx.n(600, 30_000), |rec, i, rng| hostile_source(rec, ctx, i, rng)));
+  rec.merge(par_run(ctx, "multi-element", ctx.n(600, 30_000), |rec, i, rng| multi_element(rec, ctx, i, rng)));
   rec.note("global_coefficient_set", json!(global.lock().unwrap().len()));
   // the coefficients are draws from a random source: over the thousands seen in a run
   // every one of the low 128 bit positions must have been observed both set and clear
